@@ -50,6 +50,15 @@ EventOK(e) ==
     [] e.op = "batchinvert" ->
          /\ Len(e.outs) = Len(e.as)
          /\ \A i \in 1..Len(e.as) : InvOK(Val(e.as[i], bk), Val(e.outs[i], bk))
+    \* ---- AVX2 vector lanes: four elements per vector, each ten 26/25-bit limbs
+    [] e.op = "vmul" -> \A j \in 1..4 : Val(e.out[j], "u32") = FMul(Val(e.a[j], "u32"), Val(e.b[j], "u32"))
+    [] e.op = "vsqnd" -> /\ \A j \in 1..3 : Val(e.out[j], "u32") = FSq(Val(e.a[j], "u32"))
+                         /\ Val(e.out[4], "u32") = FNeg(FSq(Val(e.a[4], "u32")))
+    [] e.op = "vreduce" -> \A j \in 1..4 : Val(e.out[j], "u32") = Val(e.a[j], "u32")
+    [] e.op = "vneg" -> \A j \in 1..4 : Val(e.out[j], "u32") = FNeg(Val(e.a[j], "u32"))
+    [] e.op = "vsel" -> \A j \in 1..4 : e.out[j] = (IF e.choice = 1 THEN e.b[j] ELSE e.a[j])
+    [] e.op = "vsplit" -> \A j \in 1..4 : /\ e.fe[j] = FToBytes(Val(e.a[j], "u32"))
+                                          /\ Val(e.out[j], "u32") = Val(e.a[j], "u32")
     [] OTHER -> FALSE
 
 VARIABLE l
